@@ -37,7 +37,7 @@ ONLY = P.get("only")
 TMP = P.get("tmp", "/verif/build/tmp")
 os.makedirs(TMP, exist_ok=True)
 PI = math.pi
-RESERVED = ["y", "x", "phi1", "Phi", "phi2", "phase_id", "id", "is_in_data"]
+RESERVED = ["y", "x", "phi1", "Phi", "phi2", "improper", "phase_id", "id", "is_in_data"]
 
 cases, fails, strata = [], [], {}
 
@@ -52,7 +52,7 @@ def fail(sig, what, rep):
 
 # ------------------------------------------------------------------ specs
 NAMES = ["austenite", "ferrite", "al", "Ni3Al", "a b", "", "None", "sigma-phase", "x" * 40]
-NAMES_NA = ["α-Fe", "γ", "Fe₃C", "é"]
+NAMES_NA = ["α-Fe", "γ", "Fe₃C", "é", "γ′-Ni₃Al"]
 PROPS = ["iq", "dp", "ci", "fit", "mad", "bc", "band_slope", "IQ", "Z", "é", "0", "phi", "X"]
 COLORS = ["tab:blue", "b", "blue", "xkcd:blue", "#ff0000", "r", "C1", "0.5", "lime", "tab:orange", "k",
           "w", "g", "xkcd:sky blue", "darkorange", "#1f77b4"]
@@ -239,7 +239,7 @@ def gen_spec(k):
     if hostile == "unit-none":
         s["unit"] = None
     elif hostile == "unit-nonascii":
-        s["unit"] = R.choice(["µm", "Å", "μm"])
+        s["unit"] = R.choice(["µm", "Å", "μm", "Å⁻¹"])
     return s
 
 
@@ -413,7 +413,8 @@ def compare(m0, m1, pre, rep):
                          f"({b.tolist()})", rep)
             if m0["imp"][i] != m1["imp"][i] and "imp" not in seen:
                 seen.add("imp")
-                fail(pre + "rot:improper-lost", f"improper flag of rotation {i} is {m0['imp'][i]} before and "
+                cause = "prop-reserved" if "improper" in m0["props"] else "improper-lost"
+                fail(pre + f"rot:{cause}", f"improper flag of rotation {i} is {m0['imp'][i]} before and "
                      f"{m1['imp'][i]} after the round trip", rep)
     # properties
     for k in sorted(set(m0["props"]) | set(m1["props"])):
@@ -517,8 +518,9 @@ def run_case(s, k):
     # the model has no string arrays and HDF5 path semantics of "/" in names
     if any(v["cls"] == "X" for v in m0["props"].values()) or any(k2 == "" or "/" in k2 for k2 in m0["props"]):
         case["corr"] = False
-    # a float property overriding the phase_id dataset is cast by astype(int): float -> int casts are not modelled
-    if "phase_id" in m0["props"]:
+    # a float property overriding the phase_id dataset is cast by astype(int), one overriding the improper dataset is
+    # broadcast and cast to bool: these casts are not modelled
+    if "phase_id" in m0["props"] or "improper" in m0["props"]:
         case["corr"] = False
     fn = os.path.join(TMP, f"c13_{os.getpid()}_{k}.{s['ext']}")
     try:
